@@ -877,6 +877,10 @@ pub fn case_cli(ctx: &mut Ctx, case: &Value) {
                             if d == 0.0 {
                                 ctx.stat("matches_library_bit_equal");
                             }
+                        } else if knife && d_other <= 1e-8 && pinfo.regret() == info.regret() && !use_pruned && par == 1 {
+                            // an exact tie computed by the same code in both processes: "printed
+                            // exactly when its regret is strictly lower" decides it
+                            ctx.fail_prop(case, format!("the pruned profile was printed although its regret {:e} is not lower than the unpruned one's {:e}; {}", pinfo.regret(), info.regret(), shown));
                         } else if knife && d_other <= 1e-8 {
                             ctx.skipped_illcond += 1;
                         } else if {
@@ -914,6 +918,12 @@ fn cli_game(ctx: &mut Ctx, i: u64) -> T {
         let t = match i % 9 {
             7 => kuhn(3),
             8 => adversarial(&mut ctx.rng, i / 9),
+            // payoff-equivalent actions: regrets tie exactly, so whatever is decided by comparing
+            // two regrets (the clip step) is decided by the rule for ties
+            6 => {
+                let flat = if (i / 9) % 2 == 0 { 0.0 } else { 0.5 };
+                gen_obs(&mut ctx.rng, &cfg).map_payoffs(&|_| flat)
+            }
             _ => gen_obs(&mut ctx.rng, &cfg),
         };
         // payoffs are rounded to multiples of 1/8 by the naming step; deep chains are too big for a file
@@ -930,6 +940,10 @@ fn gen_cli_case(ctx: &mut Ctx, i: u64, compare_library: bool) -> Value {
     let gambit = ctx.rng.chance(0.5) || t.depth() > JSON_MAX_DEPTH;
     let method = if compare_library { "full" } else { *ctx.rng.pick(&["full", "sampled", "external"]) };
     let k = if gambit { *ctx.rng.pick(&[0.0, 0.0, 1.0, 4.0, -2.5, 10.0]) } else { 0.0 };
+    // clip thresholds: ordinary ones, and values a probability can be exactly equal to (the
+    // uniform start 1/n survives a single iteration's average; "only actions above the threshold")
+    let clip = *ctx.rng.pick(&[0.0, 0.0, 0.01, 0.1, 0.3, 0.6, 0.5, 0.25, 1.0 / 3.0, 0.2]);
+    let exact_clip = clip == 0.5 || clip == 0.25 || clip == 1.0 / 3.0 || clip == 0.2;
     json!({
         "op": "cli", "tree": t.to_json(), "nseed": ctx.rng.next() >> 12,
         "format": if gambit { "gambit" } else { "json" },
@@ -937,10 +951,10 @@ fn gen_cli_case(ctx: &mut Ctx, i: u64, compare_library: bool) -> Value {
         "efg": if gambit && ctx.rng.chance(0.7) { EfgFeat::random(&mut ctx.rng).to_json() } else { EfgFeat::default().to_json() },
         "method": method,
         "discount": *ctx.rng.pick(&["vanilla", "lcfr", "cfr-plus", "dcfr", "dcfr-prune"]),
-        "t": *ctx.rng.pick(&[1u64, 2, 5, 20, 60]),
+        "t": if exact_clip && ctx.rng.chance(0.6) { 1 } else { *ctx.rng.pick(&[1u64, 2, 5, 20, 60]) },
         "r": *ctx.rng.pick(&[0.0, 0.0, 0.05, 0.5]),
         "p": if compare_library { *ctx.rng.pick(&[1u64, 1, 1, 2]) } else { *ctx.rng.pick(&[0u64, 1, 2, 3]) },
-        "c": *ctx.rng.pick(&[0.0, 0.0, 0.01, 0.1, 0.3, 0.6]),
+        "c": clip,
         "route": *ctx.rng.pick(&["file-ext", "file-ext", "stdin-auto", "stdin-explicit", "file-other-auto", "file-other-explicit"]),
         "outfile": ctx.rng.chance(0.25),
         "compare_library": compare_library,
@@ -1212,8 +1226,18 @@ pub fn c17(ctx: &mut Ctx) -> String {
             case_reject(ctx, &case);
         }
         // contract violations of C11 surface as the game-error category
-        if i % 3 == 0 {
-            let (t2, planted) = plant(&mut ctx.rng, &t);
+        if i % 3 != 2 {
+            // every third case on a game of the stream with any kind of violation; every third on
+            // one infoset shared by several nodes with three or four actions, with the kinds that
+            // make nodes of one infoset disagree (a dropped last action leaves a strict prefix)
+            let (t2, planted) = if i % 3 == 0 {
+                plant(&mut ctx.rng, &t)
+            } else {
+                let (w, a) = (ctx.rng.range(2, 4) as u32, ctx.rng.range(3, 4) as u32);
+                let base = wide_infoset(&mut ctx.rng, w, a);
+                let kind = *ctx.rng.pick(&[9u64, 9, 9, 3, 8, 6, 11, 5, 10, 4]);
+                plant_kind(&mut ctx.rng, &base, kind)
+            };
             if !violations(&t2).is_empty() && !matches!(planted, "nan-payoff") {
                 let (ng2, names2) = name_game(&mut nrng, &t2);
                 if names_ok(&ng2) {
